@@ -170,6 +170,7 @@ def run(P, rep, tier):
         missing_any = set()
         npaths = 0
         compared_all = None
+        impure = {}
 
         def thunk():
             a = D.build_tree(I)[cname]
@@ -192,6 +193,9 @@ def run(P, rep, tier):
             mark, a, b, res = path.value
             if is_concrete(res) and not concrete(res):
                 continue
+            for ev in path.events[mark:]:
+                if ev.kind in ('attr-store', 'item-store', 'mutate', 'item-del') and (_in_tree(a, ev.data.get('obj')) or _in_tree(b, ev.data.get('obj'))):
+                    impure.setdefault(norm(ev.node)[:60], ev)
             read_a, read_b = set(), set()
             for ev in path.events[mark:]:
                 if ev.kind == 'attr-read':
@@ -213,6 +217,10 @@ def run(P, rep, tier):
             missing_any |= miss
             compared_all = covered if compared_all is None else (compared_all & covered)
         eq_compared[cname] = compared_all or set()
+        for txt, ev in impure.items():
+            rep.violation(r4, 'eq-mutates:%s:%s' % (cname, txt), ev.loc,
+                          '%s.__eq__ writes to the operands it compares (%s in %s): a cached or defaulted value can go stale, so trees '
+                          'that differ compare equal (or the comparison itself changes the tree)' % (cname, txt, ev.fn), path=[cname + '.__eq__', ev.fn])
         if missing_any:
             rep.violation(r4, 'eq-misses:%s:%s' % (cname, ','.join(sorted(missing_any))),
                           '%s:%d' % (cls.module.relpath, cls.node.lineno),
